@@ -64,7 +64,15 @@ def install(E):
     E.index_models["Deps"] = idx_deps
     E.seq_models["RuleSeq"] = lambda E_, s, ref: (int_term(s.cell(ref).attrs["__len__"]),
                                                   lambda i, s2=None: Opaque("rule class"))
-    E.index_models["SymList"] = lambda E_, s, base, idx: [(s, Opaque("element"))]
+
+    def idx_symlist(E_, s, base, idx):
+        # a list of unknown length and unknown elements: the index is still range-checked
+        from ..pyvc.builtins_ import norm_index
+        out = []
+        for s2, eff in norm_index(E_, s, idx, s.cell(base).attrs["__len__"], "list"):
+            out.append((s2, eff if isinstance(eff, Raised) else Opaque("element")))
+        return out
+    E.index_models["SymList"] = idx_symlist
 
     def havoc_tokens(E_, st, frame):
         env = frame if frame is not None else st.locals
@@ -311,6 +319,9 @@ def simple_primaries():
         # the lexer never produces an ESCAPED_NEWLINE token (finite check on Lexer's Token(...) calls)
         c.req("forall(0, ntok(context), lambda k: not kind_in(context, k, 'ESCAPED_NEWLINE'))")
         c.ens("implies(b >= ntok(context), result[0] is True)", "all_blank_matches")
+        # exactly the blank lines match: this is the precondition NOT_EMPTY of the primaries
+        # of lower priority (specs/primaries.py)
+        c.ens("(result[0] is True) == (b >= ntok(context) or kind_in(context, b, 'NEWLINE'))", "matches_iff_blank_line")
     return [progress_contract("is_comment.py", "IsComment"),
             progress_contract("is_empty_line.py", "IsEmptyLine", empty_extra,
                               {0: dict(invariant=["i >= 0", "forall(0, i, lambda k: kind_in(context, k, ('SPACE', 'TAB')))"],
@@ -319,15 +330,11 @@ def simple_primaries():
 
 def func_declaration():
     """IsFuncDeclaration.run: the functions counter (C03) and progress (C05a / C07).
-    check_func_format is used through an ASSUMED call-site contract: a match reports a
-    position >= 1, and it writes neither context.tokens nor scope.functions (the latter is
-    a complete AST fact: `functions` is assigned in IsFuncDeclaration.run only)."""
+    check_func_format is used through its call-site contract (verified against its body in
+    specs/primaries.py): a match reports a position >= 1 and the writes are fname_pos / arg_pos."""
     key = f"{R}is_func_declaration.py:IsFuncDeclaration."
-    cff = Contract(key + "check_func_format", result=("bool", "int"))
-    cff.modifies = ["context.fname_pos:int", "context.arg_pos:opaque"]
-    cff.ens("implies(result[0] is True, result[1] >= 1)", "assumed_match_position")
-    cff.rais("CParsingError")
-    cff.assumed = True
+    from .primaries import rule_helper_contracts
+    cff = rule_helper_contracts()["IsFuncDeclaration.check_func_format"]
     c = Contract(key + "run", setup=primary_setup(R + "is_func_declaration.py", "IsFuncDeclaration"))
     c.req("ntok(context) >= 1")
     c.rais("CParsingError")
